@@ -302,3 +302,125 @@ class Get1dWeight(WeightCompositeTrapezoidal):
 
 
 CONTRACTS += [WeightCompositeTrapezoidal(), Get1dWeight()]
+
+
+# --------------------------------------------------------------------------- the d-dimensional tensor grid: one 1-D grid per dimension (dims 1-2)
+def grid1d_tagged(S, t):
+    a, b = S.real("a%s" % t), S.real("b%s" % t)
+    S.assume(a < b)
+    f = dict(a=a, b=b, boundary=S.bool("boundary%s" % t), modified_basis=False, start=S.real("start%s" % t), end=S.real("end%s" % t))
+    S.assume(z3.And(a <= f["start"], f["start"] < f["end"], f["end"] <= b))
+    return Obj("TrapezoidalGrid1D", f)
+
+
+def _sca_havoc(self, S, cenv, tag):
+    """caller-side frame of Grid1d.set_current_area: everything it (re)computes"""
+    f = cenv["self"].fields
+    for k in ("num_points", "num_points_with_boundary", "lowerBorder", "upperBorder", "level"):
+        f[k] = S.int("%s.%s" % (tag, k))
+    for k in ("start", "end", "length", "spacing"):
+        f[k] = S.real("%s.%s" % (tag, k))
+    for k in ("coords", "weights", "coords_with_boundary"):
+        n = S.int("%s.%s.len" % (tag, k))
+        S.assume(n >= 0)
+        f[k] = S.seq("%s.%s" % (tag, k), n, R, kind="array")
+
+
+for _c in CONTRACTS:
+    if isinstance(_c, SetCurrentArea):
+        _c.havoc = _sca_havoc.__get__(_c)
+
+
+class GridLevelToNumPoints(Contract):
+    """Grid.levelToNumPoints (tensor grid of 1-2 trapezoidal 1-D grids): entry d is the count the 1-D grid of dimension d announces for levelvec[d]"""
+    file, qualname = FILE, "Grid.levelToNumPoints"
+
+    def __init__(self, ndim):
+        self.ndim = ndim
+        self.label = "Grid.levelToNumPoints[TrapezoidalGrid, dims=%d]" % ndim
+
+    def applies(self, receiver, args):
+        return isinstance(receiver.fields.get("grids"), Seq) and len(receiver.fields["grids"].items) == self.ndim
+
+    def inputs(self, S):
+        grids = [grid1d_tagged(S, str(d)) for d in range(self.ndim)]
+        return {"self": Obj("TrapezoidalGrid", dict(grids=Seq("list", grids), dim=self.ndim)), "levelvec": Seq("list", [S.int("level%d" % d) for d in range(self.ndim)])}
+
+    def pre(self, S, env):
+        lv = env["levelvec"]
+        ok = isinstance(lv, Seq) and lv.concrete and len(lv.items) == self.ndim
+        return [("one-level-per-dimension", ok)] + ([("level-%d-nonneg" % d, V(lv.items[d]) >= 0) for d in range(self.ndim)] if ok else [])
+
+    def result(self, S, env):
+        return Seq("array", [S.int("numPoints%d" % d) for d in range(self.ndim)])
+
+    def post(self, S, old, env, result):
+        ok = isinstance(result, Seq) and result.concrete and len(result.items) == self.ndim
+        if not ok:
+            return [Cl("one-count-per-dimension", False, prop=True)]
+        grids = env["self"].fields["grids"].items
+        return [Cl("one-count-per-dimension", True, prop=True)] + \
+               [Cl("announced-count-of-dimension-%d" % d, V(result.items[d]) == announced(grids[d], V(old["levelvec"].items[d])), prop=True) for d in range(self.ndim)] + \
+               [Cl("grids-untouched-%d" % d, z3.And(*[grids[d].fields[k] == old["self"].fields["grids"].items[d].fields[k] for k in ("a", "b", "start", "end", "boundary")])) for d in range(self.ndim)]
+
+    def model_to_input(self, model):
+        from pyvc import modelparse as mp
+        g = lambda k, dflt=0: mp.tofloat(mp.num(model.get(k, str(dflt))))  # noqa
+        return {"kind": "C08.tensor", "ndim": self.ndim, "a": [g("a%d" % d) for d in range(self.ndim)], "b": [g("b%d" % d, 1) for d in range(self.ndim)],
+                "start": [g("start%d" % d) for d in range(self.ndim)], "end": [g("end%d" % d, 1) for d in range(self.ndim)],
+                "boundary": [model.get("boundary%d" % d, "True") == "True" for d in range(self.ndim)], "level": [g("level%d" % d, 1) for d in range(self.ndim)]}
+
+
+class GridSetCurrentArea(Contract):
+    """Grid.setCurrentArea (1-2 dimensions): every dimension returns exactly as many coordinates and weights as numPoints reports for it, all inside the sub-box"""
+    file, qualname = FILE, "Grid.setCurrentArea"
+    inline = ("Grid.levelToNumPointsWithBoundary", "levelToNumPointsWithBoundary")
+
+    def __init__(self, ndim):
+        self.ndim = ndim
+        self.label = "Grid.setCurrentArea[TrapezoidalGrid, dims=%d]" % ndim
+
+    def inputs(self, S):
+        nd = self.ndim
+        grids = []
+        for d in range(nd):
+            a, b = S.real("a%d" % d), S.real("b%d" % d)
+            S.assume(a < b)
+            grids.append(Obj("TrapezoidalGrid1D", dict(a=a, b=b, boundary=S.bool("boundary%d" % d), modified_basis=False)))
+        start, end = [S.real("start%d" % d) for d in range(nd)], [S.real("end%d" % d) for d in range(nd)]
+        for d in range(nd):
+            S.assume(z3.And(grids[d].fields["a"] <= start[d], start[d] < end[d], end[d] <= grids[d].fields["b"]))
+        return {"self": Obj("TrapezoidalGrid", dict(grids=Seq("list", grids), dim=nd, a=Seq("array", [g.fields["a"] for g in grids]), b=Seq("array", [g.fields["b"] for g in grids]))),
+                "start": Seq("array", start), "end": Seq("array", end), "levelvec": Seq("list", [S.int("level%d" % d) for d in range(nd)])}
+
+    def pre(self, S, env):
+        return [("level-%d-nonneg" % d, V(env["levelvec"].items[d]) >= 0) for d in range(self.ndim)]
+
+    def post(self, S, old, env, result):
+        f = env["self"].fields
+        need = ("numPoints", "coordinate_array", "weights")
+        ok = all(isinstance(f.get(k), Seq) and f[k].concrete and len(f[k].items) == self.ndim for k in need)
+        if not ok:
+            return [Cl("records-counts-coordinates-and-weights-per-dimension", False, prop=True)]
+        out = [Cl("records-counts-coordinates-and-weights-per-dimension", True, prop=True)]
+        i = z3.Int("ti")
+        for d in range(self.ndim):
+            n = V(f["numPoints"].items[d])
+            c, w = f["coordinate_array"].items[d], f["weights"].items[d]
+            if not (isinstance(c, Seq) and isinstance(w, Seq)):
+                out.append(Cl("dimension-%d-holds-arrays" % d, False, prop=True))
+                continue
+            c, w = c.to_symbolic(), w.to_symbolic()
+            g = f["grids"].items[d]
+            out += [Cl("reported-count-is-the-number-of-returned-points[dim %d]" % d, V(c.len()) == n, prop=True),
+                    Cl("as-many-weights-as-points[dim %d]" % d, V(w.len()) == n, prop=True),
+                    Cl("reported-count-is-the-announced-count[dim %d]" % d, n == announced(g, V(old["levelvec"].items[d])), prop=True),
+                    Cl("points-inside-the-sub-box[dim %d]" % d, z3.ForAll([i], z3.Implies(z3.And(i >= 0, i < n, z3.Not(z3.And(z3.Not(g.fields["boundary"]), n == 1))),
+                       z3.And(z3.Select(c.arr, i) >= V(old["start"].items[d]), z3.Select(c.arr, i) <= V(old["end"].items[d])))), prop=True)]
+        return out
+
+    model_to_input = GridLevelToNumPoints.model_to_input
+
+
+CONTRACTS += [GridLevelToNumPoints(1), GridLevelToNumPoints(2), GridSetCurrentArea(1), GridSetCurrentArea(2)]
+ASSUMPTIONS += ["tensor grid: verified for 1 and 2 dimensions (loops over the dimensions unrolled), each dimension with its own symbolic domain, sub-box, level and boundary flag"]
